@@ -97,3 +97,106 @@ def check_final_file(cfg, model, chdir, sd, fn, T, want_attrs=True, uuid=None, a
 
 def model_of_files(cfg, model, fin):
     return model.restrict_to_files([T for _, _, T in fin])
+
+
+def merged(intervals):
+    out = []
+    for lo, hi in sorted(intervals):
+        if out and lo <= out[-1][1] + 1:
+            out[-1][1] = max(out[-1][1], hi)
+        else:
+            out.append([lo, hi])
+    return [(a, b) for a, b in out]
+
+
+def check_channel_files(cfg, model, chdir, sessions=None, clock_lo=None):
+    """After close: every data file of one channel directory against the model.
+    sessions: {uuid: absolute start index}.  -> list of (prop, cls, msg)"""
+    errs = []
+    fin, tmp, strays = final_files(chdir)
+    for sd, fn, T in tmp:
+        errs.append(("C02", "tmp_after_close", "%s/%s remains after close" % (sd, fn)))
+    for s in strays:
+        errs.append(("C02", "stray_file", "unexpected path %s" % s))
+    have = sorted(T for _, _, T in fin)
+    want = model.files()
+    for T in sorted(set(want) - set(have)):
+        errs.append(("C04", "file_missing", "samples of file period T=%d ms (%s) are in no such file" % (
+            T, cfg.relpath(T))))
+    for T in sorted(set(have) - set(want)):
+        errs.append(("C07" if cfg.plain_continuous else "C04", "file_without_samples",
+                     "file for period T=%d exists but no sample of it was written" % T))
+    all_blocks = []
+    by_uuid = {}
+    for sd, fn, T in fin:
+        e, raw = check_final_file(cfg, model, chdir, sd, fn, T, uuid=None)
+        errs.extend(e)
+        if raw is None or e:
+            continue
+        blocks = [(s, s + n - 1) for s, o, n in M.file_blocks(raw) if n > 0]
+        all_blocks.extend((lo, hi, T) for lo, hi in blocks)
+        got = merged(blocks)
+        lo, hi = cfg.window(T)
+        if cfg.plain_continuous:
+            exp = [(lo, hi)]
+            if len(raw["index"]) != 1 or got != exp:
+                errs.append(("C07", "not_single_full_block", "%s/%s: index %s, expected one block covering "
+                             "the whole window [%d,%d]" % (sd, fn, raw["index"][:4], lo, hi)))
+        else:
+            sub = model.restrict_to_files([T])
+            exp = merged([(a, a + n - 1) for a, n, _ in sub.segs])
+            if got != exp:
+                errs.append(("C04", "file_content_set", "%s/%s holds samples %s, model says %s" % (
+                    sd, fn, got[:5], exp[:5])))
+        at = raw["attrs"]
+        by_uuid.setdefault(at.get("uuid_str"), []).append((T, at))
+    all_blocks.sort()
+    for i in range(1, len(all_blocks)):
+        if all_blocks[i][0] <= all_blocks[i - 1][1]:
+            errs.append(("C04", "index_in_two_files", "indices [%d,%d] (file T=%d) overlap [%d,%d] (file T=%d)" % (
+                all_blocks[i][0], all_blocks[i][1], all_blocks[i][2], all_blocks[i - 1][0],
+                all_blocks[i - 1][1], all_blocks[i - 1][2])))
+            break
+    for uuid, lst in by_uuid.items():
+        lst.sort(key=lambda x: x[0])
+        if sessions is not None and uuid not in sessions:
+            errs.append(("C06", "attr_mismatch", "file carries unknown uuid_str %r" % (uuid,)))
+            continue
+        seqs = [a.get("sequence_num") for _, a in lst]
+        if any(seqs[i] is None or (i and seqs[i] <= seqs[i - 1]) for i in range(len(seqs))):
+            errs.append(("C06", "sequence_num", "session %s: sequence_num %s does not increase with file time" % (
+                uuid, seqs[:8])))
+        inits = set(a.get("init_utc_timestamp") for _, a in lst)
+        if len(inits) != 1:
+            errs.append(("C06", "init_utc_timestamp", "session %s: init_utc_timestamp varies: %s" % (uuid, sorted(inits)[:4])))
+        elif sessions is not None:
+            st = sessions[uuid]
+            exact = (st * cfg.d) // cfg.n
+            got_i = list(inits)[0]
+            if got_i is None or abs(int(got_i) - exact) > 1:
+                errs.append(("C06", "init_utc_timestamp", "session %s: init_utc_timestamp %s, start is %d s" % (
+                    uuid, got_i, exact)))
+        if clock_lo is not None:
+            cts = [a.get("computer_time") for _, a in lst]
+            if any(c is None or c < clock_lo or c > clock_lo + 10**6 for c in cts):
+                errs.append(("C06", "computer_time", "session %s: computer_time %s not the (virtual) clock" % (uuid, cts[:4])))
+    # properties file equals the duplicated attributes
+    pf = os.path.join(chdir, "drf_properties.h5")
+    try:
+        import h5py
+
+        with h5py.File(pf, "r") as f:
+            pa = {k: M._pyval(v) for k, v in f.attrs.items()}
+        exp = M.expected_prop_attrs(cfg)
+        for k, v in exp.items():
+            if pa.get(k) != v:
+                errs.append(("C06", "properties_file", "drf_properties.h5: %s=%r expected %r" % (k, pa.get(k), v)))
+        for uuid, lst in by_uuid.items():
+            for T, at in lst[:1]:
+                for k in M.PROP_ATTRS:
+                    if pa.get(k) != at.get(k):
+                        errs.append(("C06", "properties_file", "attribute %s differs between drf_properties.h5 (%r) "
+                                     "and data file (%r)" % (k, pa.get(k), at.get(k))))
+    except Exception as e:  # noqa
+        errs.append(("C06", "properties_file", "cannot read drf_properties.h5: %s" % e))
+    return errs
